@@ -7,6 +7,8 @@ def run(run, tier):
     l4.validate_standins(run, tier, run.seed)
     hs = l4.harnesses(tier, run.seed)
     ch.run_harnesses(run, "C04", hs, timeout=150 if tier == "quick" else 500)
+    from vf import bounds
+    bounds.report(run, ["fastavro._write_py", "fastavro._read_py", "fastavro._read_common", "fastavro._write_common"], 3, "records per file")
     l2.describe(run, tier)
     run.bounds += ["container: schemas " + ", ".join(l4.SCHEMAS if tier == "thorough" else l4.QUICK) +
                    f"; 0..{3 if tier == 'thorough' else 2} records, each with collections <= 1 element, int/long in [-64, 63] "
